@@ -250,8 +250,10 @@ Definition holds_C10 (reg : list (name * (name * Z))) (p o : obs) (m : msg) : Z 
             match get (t_minunit tb) reg with
             | None => 4
             | Some (target, ratio) =>
-                match oget_token p target with
-                | None => 4
+                (* the scale that counts is that of the token whose MIN UNIT is the minted denom (a token
+                   whose SYMBOL happens to be that string is a different token) *)
+                match otoken_mu p target with
+                | None => 7
                 | Some tm =>
                     if eqb target denom then 0
                     else
